@@ -13,7 +13,7 @@ RULE = ("socks: every method list of length <= 2 over {0,1,2,255} and sampled li
 SIDE_LEMMAS = 1
 ASSUMPTIONS = ["the verdict of the tunnel open (SYNACK ok/error, C10) is an oracle argument of socks_session; in the check it is scripted on the in-process server side",
                "tokio read_exact on a TcpStream loops over TCP segments exactly like Reader.v's read_exact over chunks",
-               "real sockets: the driver decides 'no further progress' after 300 ms of silence",
+               "real sockets: the driver decides 'no further progress' after 500 ms of silence",
                "model tied to socks5.rs by differential execution on the cases counted below (sampling)"]
 TRUSTED_EXTRA = ["loopback TCP (OS), tokio net"]
 IMPL_SHARDS = 12
